@@ -85,12 +85,12 @@ type CA struct {
 	DirFail func() bool
 	Yield   func()
 
-	EABKid   string
-	EABKey   []byte
-	CertDER  []byte
-	Problems []Problem
+	EABKid     string
+	EABKey     []byte
+	CertDER    []byte
+	Problems   []Problem
 	Unscripted int
-	LastLoc  map[int]string // caller -> Location of the last reply
+	LastLoc    map[int]string // caller -> Location of the last reply
 }
 
 func NewCA(keys map[string]crypto.Signer) *CA {
@@ -323,7 +323,7 @@ func (s *CA) keyName(pub crypto.PublicKey) string {
 // reqInfo is the abstract view of a signed request (the "req" event of the trace).
 type reqInfo struct {
 	URL, Signer, Form, Kid, Pay, NK, IAcct, IOld, IForm, IURL, EAB string
-	INonce                                                          bool
+	INonce                                                         bool
 }
 
 func (r *reqInfo) event(c int) Event {
